@@ -16,7 +16,7 @@ import (
 	"context"
 	"fmt"
 	"runtime"
-		"strings"
+	"strings"
 	"sync"
 	"sync/atomic"
 	"testing"
@@ -109,6 +109,8 @@ type c17PoolRun struct {
 	lastCooldown map[int]time.Duration // peer -> mock time of the last putOnCooldown that took effect
 	removedSince map[int]bool          // peer -> removed after that cool-down
 	unstable     bool
+	aborted      bool
+	executed     []c17Op
 }
 
 func c17NewPoolRun(r *zv.Run, seq c17Seq) *c17PoolRun {
@@ -272,9 +274,18 @@ func c17PoolInvariants(p *pool) string {
 	return ""
 }
 
+// violation records an L3 finding with the sequence so far as its replay; the sequence ends there (what follows
+// would run on a pool whose state is already wrong).
 func (x *c17PoolRun) violation(sig, desc string) {
-	x.r.Violation(sig, desc, x.seq)
+	rep := x.seq
+	rep.Ops = append([]c17Op{}, x.executed...)
+	x.r.Violation(sig, desc, rep)
+	x.aborted = true
 }
+
+// c17WatchdogHits counts expired watchdogs in this run; after a few of them the sequential part stops (each costs the
+// full watchdog time and the finding is already recorded).
+var c17WatchdogHits int
 
 // offered: L3 oracle for a peer handed out by tryGet / next.
 func (x *c17PoolRun) offered(id peer.ID, via string) {
@@ -306,7 +317,7 @@ func c17GetRes(id peer.ID, ok bool) string {
 
 // collect: if a waiter is pending and a peer is available it must be delivered.
 func (x *c17PoolRun) collect() {
-	if !x.wlive || x.p.len() == 0 {
+	if !x.wlive || x.p.len() <= 0 {
 		return
 	}
 	select {
@@ -316,6 +327,7 @@ func (x *c17PoolRun) collect() {
 		x.offered(id, "next")
 		x.r.Count("pool-op", "waiter-delivered")
 	case <-time.After(c17Watchdog):
+		c17WatchdogHits++
 		x.violation("pool-waiter-not-woken", fmt.Sprintf("a caller blocked in next() was not handed a peer within %v although activeCount=%d", c17Watchdog, x.p.len()))
 		x.events = append(x.events, fmt.Sprintf("EWWake %d", x.wid), fmt.Sprintf("EWTry %d", x.wid))
 		x.outs = append(x.outs, "GNone")
@@ -328,12 +340,13 @@ func (x *c17PoolRun) collect() {
 
 // apply runs one operation; a panic inside the pool is a violation and ends the sequence (false).
 func (x *c17PoolRun) apply(op c17Op) bool {
+	x.executed = append(x.executed, op)
 	if pn := zv.Recover(func() { x.apply1(op) }); pn != "" {
 		x.violation("pool-panic:"+op.Op, fmt.Sprintf("%s panicked: %s", op.Op, pn))
 		x.unstable = true
 		return false
 	}
-	return true
+	return !x.aborted
 }
 
 func (x *c17PoolRun) apply1(op c17Op) {
@@ -421,6 +434,7 @@ func (x *c17PoolRun) apply1(op c17Op) {
 				break
 			}
 			if time.Now().After(deadline) {
+				c17WatchdogHits++
 				x.violation("pool-cooldown-not-released", fmt.Sprintf("an expired cool-down entry was not released within %v of the timer's deadline", c17Watchdog))
 				break
 			}
@@ -440,7 +454,7 @@ func (x *c17PoolRun) apply1(op c17Op) {
 		}
 		ctx, cancel := context.WithCancel(context.Background())
 		x.wch, x.wcancel, x.wlive = p.next(ctx), cancel, true
-		if p.len() == 0 {
+		if p.len() <= 0 {
 			// the waiter's tryGet fails and it parks on hasPeerCh (if it has not got that far yet the observable
 			// outcome is the same: a failing tryGet does not change the pool)
 			x.events = append(x.events, fmt.Sprintf("EWTry %d", x.wid), fmt.Sprintf("EWRead %d", x.wid))
@@ -453,6 +467,7 @@ func (x *c17PoolRun) apply1(op c17Op) {
 				x.outs = append(x.outs, c17GetRes(id, true))
 				x.offered(id, "next")
 			case <-time.After(c17Watchdog):
+				c17WatchdogHits++
 				x.violation("pool-next-hang", "next() did not deliver although a peer was active")
 				x.events = append(x.events, fmt.Sprintf("EWTry %d", x.wid))
 				x.outs = append(x.outs, "GNone")
@@ -479,14 +494,14 @@ func (x *c17PoolRun) apply1(op c17Op) {
 	}
 }
 
-func (x *c17PoolRun) finish(g *zv.Group, nontrivial bool) {
+func (x *c17PoolRun) finish(gs *c17Groups, idx int, nontrivial bool) {
 	if x.wlive {
 		x.wcancel()
 		x.wlive = false
 		x.events = append(x.events, fmt.Sprintf("EWCancel %d", x.wid))
 		x.quiesce(0)
 	}
-	if x.unstable {
+	if x.unstable || x.aborted {
 		return
 	}
 	final := c17PoolObs(x.p, x.seq.NPeers)
@@ -496,7 +511,7 @@ func (x *c17PoolRun) finish(g *zv.Group, nontrivial bool) {
 	if nontrivial {
 		key = "nt"
 	}
-	g.Case(term, c17PoolCase{Seq: x.seq, Events: x.events, Outs: x.outs, Final: final}, key)
+	gs.get(idx).Case(term, c17PoolCase{Seq: x.seq, Events: x.events, Outs: x.outs, Final: final}, key)
 }
 
 // c17GenOp picks the next operation from the real pool's current state (deterministic for a seed because the
@@ -571,7 +586,9 @@ func c17Scripted() []c17Seq {
 	cd := func(p int) c17Op { return c17Op{Op: "cooldown", P: p} }
 	tick := func(d int) c17Op { return c17Op{Op: "tick", D: d} }
 	wait := c17Op{Op: "wait"}
-	mk := func(thr int, ops ...c17Op) c17Seq { return c17Seq{Kind: "pool-seq", TTL: 10, Thr: thr, NPeers: 6, Ops: ops} }
+	mk := func(thr int, ops ...c17Op) c17Seq {
+		return c17Seq{Kind: "pool-seq", TTL: 10, Thr: thr, NPeers: 6, Ops: ops}
+	}
 	return []c17Seq{
 		// cool-down, remove, re-add, cool-down again 9 s later: the stale first entry must not release the peer at 10 s
 		mk(2, a(0), cd(0), rm(0), a(0), tick(9), cd(0), tick(2), get, tick(7), get, tick(1), get),
@@ -603,7 +620,7 @@ func c17Pool(t *testing.T, r *zv.Run) {
 				break
 			}
 		}
-		x.finish(gs.get(0), true)
+		x.finish(gs, 0, true)
 		return
 	}
 
@@ -614,11 +631,11 @@ func c17Pool(t *testing.T, r *zv.Run) {
 				break
 			}
 		}
-		x.finish(gs.get(i), true)
+		x.finish(gs, i, true)
 		r.Count("pool-seq", "scripted")
 	}
 	n := r.N(500, 12000)
-	for i := 0; i < n; i++ {
+	for i := 0; i < n && c17WatchdogHits < 3; i++ {
 		cr := rng.Fork(uint64(i))
 		seq := c17Seq{Kind: "pool-seq", TTL: 10, Thr: zv.Pick(cr, []int{2, 2, 2, 1, 3, 0}), NPeers: 3 + cr.Intn(4)}
 		x := c17NewPoolRun(r, seq)
@@ -630,7 +647,7 @@ func c17Pool(t *testing.T, r *zv.Run) {
 				break
 			}
 		}
-		x.finish(gs.get(i), c17SeqNontrivial(x.seq.Ops))
+		x.finish(gs, i, c17SeqNontrivial(x.seq.Ops))
 		r.Count("pool-seq", "random")
 	}
 }
@@ -775,6 +792,12 @@ func c17Stress(t *testing.T, r *zv.Run) {
 			wg.Add(1)
 			go func() {
 				defer wg.Done()
+				defer func() {
+					if e := recover(); e != nil {
+						r.Violation("pool-panic:stress", fmt.Sprintf("a pool method panicked under concurrent use: %v", e),
+							map[string]any{"kind": "stress", "round": round})
+					}
+				}()
 				for i := 0; i < opsPer; i++ {
 					switch k := wr.Intn(100); {
 					case k < 25:
@@ -910,9 +933,15 @@ func TestVerifC17(t *testing.T) {
 	}
 	c17Pool(t, r)
 	c17Manager(t, r)
-	if c17Deadlock(t, r) {
+	deadlocked := false
+	if pn := zv.Recover(func() { deadlocked = c17Deadlock(t, r) }); pn != "" {
+		r.Violation("pool-panic:deadlock-schedule", "a pool method panicked in the two-thread schedule: "+pn, map[string]any{"kind": "deadlock-schedule"})
+	}
+	if deadlocked {
 		r.Count("stress", "skipped-pool-deadlocks")
 		return
 	}
-	c17Stress(t, r)
+	if pn := zv.Recover(func() { c17Stress(t, r) }); pn != "" {
+		r.Violation("pool-panic:stress", "a pool method panicked after concurrent use: "+pn, map[string]any{"kind": "stress"})
+	}
 }
